@@ -1046,8 +1046,9 @@ def evaluate__contains_token(self: XPathFunction, context: ta.ContextType = None
     else:
         collation = self.get_argument(context, 2, required=True, cls=str)
 
+    input_strings = [x for x in self[0].select(context)]
     with CollationManager(collation, self) as manager:
-        for input_string in self[0].select(context):
+        for input_string in input_strings:
             if not isinstance(input_string, str):
                 raise self.error('XPTY0004')
             if any(x and manager.eq(token_string, x)
